@@ -63,7 +63,7 @@ def main():
         meta["ran"].append("go test -run %s %s (patched copy): failed %d/%d" % (testname, " ".join(race), fails, tries))
         os.remove(os.path.join(d, demoname))
         # 4. the checks
-        env = dict(os.environ, VERIF_REPO=d)
+        env = dict(os.environ, VERIF_REPO=d, VERIF_EVIDENCE_DIR=os.path.join(tmp, "evidence"))
         meta["checks"] = {}
         for p in [prop] + also:
             t0 = time.time()
